@@ -210,6 +210,10 @@ fn is_action_mapping(m: &Mapping) -> bool {
   }
 }
 
+fn produces_action_key(m: &Mapping) -> bool {
+  m.to.iter().any(|k| is_action_key(k))
+}
+
 fn is_any_modifier(keys: &Vec<KeyCode>) -> bool {
   keys.iter().any(|k| !is_action_key(k))
 }
@@ -269,7 +273,7 @@ fn add_new_mapping(state: &mut State, new_key: &KeyCode, m: &Mapping) -> StepRes
   
   consume_pass_through_keys(state, m, &mut events);
   
-  if is_action_mapping(m) {
+  if produces_action_key(m) {
     events.append(&mut release_action_mappings(state));
     let should_absorb = {
       match &state.absorbing_trigger {
